@@ -18,6 +18,9 @@ in a zero-probability cell"):
                       (ownership analysis of Factor.project / GraphicalModel.project / datavector: engines/fresh.py)
   conditioning        a column is generated conditionally on the already generated columns that share a model clique with it
                       (used & union of the cliques containing the column), and becomes `used` afterwards
+  method-forwarded    a column generator lifted to module level gets the caller's method at every call site
+  order-complete      the greedy elimination order starts from all attributes (on a private copy of the list), runs one round per attribute, and an early
+                      exit first moves the whole remaining work list
 Not decided: that rounding error does not grow with the number of rows; the sampling law; pandas' groupby/apply (trusted); the
 elimination order being a permutation of the attributes (C12).
 An unrecognised re-implementation of the generator is an ANALYSIS-ERROR, not a violation.
